@@ -49,9 +49,49 @@ class SymStream:
 PRIMS = ["int", "long", "float", "double", "bool", "string", "list_int", "list_string", "matrix", "double_matrix"]
 
 
-def _apply(rec, prim, L):
+def _fit(chars, L):
+    """the longest prefix of `chars` whose UTF-8 encoding fits a field of L bytes (whole characters only)"""
+    out = ""
+    for c in chars:
+        if len((out + c).encode("utf-8")) > L:
+            break
+        out += c
+    return out
+
+
+# Representative texts for a string field of L bytes (a CCCC string field is L characters of ONE byte each; armi encodes
+# text as UTF-8, so a character outside ASCII takes 2-4 of the L bytes).  A text FITS its field when its encoding is at
+# most L bytes long: then it must read back (trailing blanks are the padding of the format and cannot be told from
+# it: equality modulo trailing blanks, the re-written bytes identical).  The last two classes are over-long: the writer
+# does not refuse them (it cuts them to the field), what the contract says about their VALUE is left open here, but the
+# FRAMING clause of the property holds for every record the writer produces, so they take part in the byte counts.
+TEXTS = {
+    "empty": lambda L: "",
+    "ascii shorter than the field": lambda L: "ab"[:L],
+    "ascii exactly as wide as the field": lambda L: "abcdefghijklmnopqrstuvwxyz"[:L],
+    "ascii with leading and inner blanks": lambda L: " a b c d e f g h i j k l"[:L].rstrip(),
+    "ascii with a trailing blank": lambda L: "ab "[:L],
+    "one 2-byte character": lambda L: _fit("\u00b5", L),
+    "2-byte characters, as much as fits": lambda L: _fit("c\u0153ur-n\u00b012-\u00e9tude-\u00b5mesh", L),
+    "3-byte characters, as much as fits": lambda L: _fit("\u20aca\u2192b\u2211c\u2026d\u20ace\u2192f", L),
+    "4-byte character and ascii": lambda L: _fit("x\U0001d6d1y", L),
+    "over-long ascii": lambda L: "abcdefghijklmnopqrstuvwxyz"[:L + 3],
+    "L characters that need more than L bytes": lambda L: ("\u00e9a\u20ac" * 9)[:L],
+}
+
+
+def fits(text, L):
+    return len(text.encode("utf-8")) <= L
+
+
+def _apply(rec, prim, L, text=None):
     """apply one writer primitive with a concrete value; returns the value written"""
     import numpy as np
+
+    if text is not None and prim == "string":
+        return rec.rwString(text, L)
+    if text is not None and prim == "list_string":
+        return rec.rwList(["x"[:int(L)], text], "string", 2, L)
 
     if prim == "int":
         return rec.rwInt(-123456)
@@ -78,20 +118,27 @@ def _apply(rec, prim, L):
 
 @harness("C09", bounds="ONE writer primitive applied to an open binary record whose current byte count N is an "
                        "arbitrary symbolic Int >= 0 (inductive step: covers every mix and number of fields); string "
-                       "length L in 0..16 symbolic", stubs=STUBS,
+                       "length L in 0..16 symbolic; for the string primitives the text is a symbolic choice among "
+                       "representative classes (empty, ASCII shorter than / exactly as wide as the field, blanks, 2-, 3- "
+                       "and 4-byte UTF-8 characters filling the field, over-long texts)", stubs=STUBS,
          instances={"quick": [dict(prim=p) for p in PRIMS]})
 def binary_writer_counts_the_bytes_it_appends(ctx, prim):
     N = ctx.int("N", 0)
     L = ctx.int("L", 0, 16)
+    isString = prim in ("string", "list_string")
+    cls = ctx.choice("text", list(TEXTS)) if isString else None         # (prim is fixed per instance)
     rec = cccc.BinaryRecordWriter(SymStream(True))
     rec.open()
     rec.numBytes = N
-    _apply(rec, prim, L)
+    _apply(rec, prim, L, TEXTS[cls](int(L)) if isString else None)
     appended = sum(len(x) for x in rec.data)
     got = rec.numBytes - N
     if ctx.canary:
-        got = got + ITE(AND(N == 40, L == 7), 1, 0) if prim in ("string", "list_string") else got + ITE(N == 40, 1, 0)
+        got = got + ITE(AND(N == 40, L == 7), 1, 0) if isString else got + ITE(N == 40, 1, 0)
     ctx.check_eq("byte count of the record grows by the number of bytes appended", got, appended)
+    if isString:
+        ctx.check_eq("a string field occupies exactly its width, whatever the text",
+                     appended, (L if prim == "string" else 2 * L))
 
 
 @harness("C09", bounds="complete binary records of 1..2 fields, every ordered choice of primitives enumerated by "
@@ -138,6 +185,121 @@ def _same(r, w, p):
     if p == "string":
         return str(r) == str(w).rstrip()
     return r == w
+
+
+LAYOUTS = {
+    # where the string field under test sits among fields of the other types (S = the string under test, s = a second,
+    # plain ASCII string of the same width, i/d/f/q = int / double / float / long)
+    "alone": "S", "first": "Sid", "between": "iSd", "last": "dfS", "two strings": "iSsq", "adjacent": "SS",
+}
+
+
+def _field(rec, kind, L, val):
+    """read or write one field (val is ignored by a reader)"""
+    if kind in "Ss":
+        return rec.rwString(val, L)
+    return {"i": rec.rwInt, "d": rec.rwDouble, "f": rec.rwFloat, "q": rec.rwLong}[kind](val)
+
+
+def _values(layout, L, text):
+    return [{"S": text, "s": "zy"[:L], "i": -7, "d": 1.25, "f": 0.5, "q": 2 ** 40 + 5}[kind] for kind in layout]
+
+
+_WIDTH = {"i": 4, "d": 8, "f": 4, "q": 8}
+
+
+@harness("C09", bounds="a complete binary record holding a string field of width L in 0..12 (symbolic) among int / "
+                       "double / float / long / string neighbours (6 layouts, symbolic choice); the text is a symbolic "
+                       "choice among representative classes: empty, ASCII shorter than / exactly as wide as the field, "
+                       "leading, inner and trailing blanks, 2-, 3- and 4-byte UTF-8 characters filling the field, "
+                       "over-long texts (framing obligations only)", stubs=STUBS, max_paths=2000)
+def binary_string_field_is_framed_by_its_width_for_every_text(ctx):
+    L = int(ctx.int("L", 0, 12))
+    cls = ctx.choice("text", list(TEXTS))
+    layout = ctx.choice("layout", list(LAYOUTS))
+    text = TEXTS[cls](L)
+    st = SymStream(True)
+    written = _values(LAYOUTS[layout], L, text)
+    with cccc.BinaryRecordWriter(st) as rec:
+        for kind, v in zip(LAYOUTS[layout], written):
+            _field(rec, kind, L, v)
+    raw = st.buf
+    # independent walk, as a FORTRAN sequential-access reader does it: [count][count bytes][count]
+    (lead,) = struct.unpack("i", raw[:4])
+    payload = len(raw) - 8
+    expected = sum(L if kind in "Ss" else _WIDTH[kind] for kind in LAYOUTS[layout])
+    if ctx.canary and cls.startswith("3-byte") and L == 7 and layout == "between":
+        expected += 1
+    ctx.check("leading count == number of bytes between the two counts", lead == payload)
+    ctx.check("the trailing count sits where the leading count points to and equals it",
+              0 <= lead <= len(raw) - 8 and struct.unpack("i", raw[4 + lead:8 + lead])[0] == lead)
+    ctx.check("the payload is as long as the field widths say (a string field takes exactly its width)",
+              payload == expected)
+    if not fits(text, L):
+        return                                  # over-long: what is read back is outside the contract
+    rd = SymStream(True)
+    rd.buf = raw
+    ok, consumed, back = True, None, []
+    try:
+        with cccc.BinaryRecordReader(rd) as rec:
+            for kind, w in zip(LAYOUTS[layout], written):
+                back.append(_field(rec, kind, L, None))
+                ok = ok and (back[-1] == w.rstrip() if kind in "Ss" else back[-1] == w)
+            consumed, announced = rec.byteCount, rec.numBytes
+    except (BufferError, UnicodeDecodeError):
+        ok = False
+    ctx.check("reader returns what was written (strings modulo the blank padding) and accepts the framing", ok)
+    if ok:
+        ctx.check("the reader has consumed exactly the announced number of bytes when it reaches the trailing count",
+                  consumed == announced)
+        ctx.check("reader consumed the whole record", rd.remaining() == 0)
+        # writing what was read reproduces the record byte for byte (the padding is regenerated)
+        st2 = SymStream(True)
+        with cccc.BinaryRecordWriter(st2) as rec:
+            for kind, v in zip(LAYOUTS[layout], back):
+                _field(rec, kind, L, v)
+        ctx.check("writing what was read reproduces the record byte for byte", st2.buf == raw)
+
+
+# IORecord.rwBool keeps a value only if it is a Python bool (isinstance(val, bool)): numpy.bool_(True) -- what any
+# comparison or reduction of numpy data yields, e.g. `heating.any()` for the PMATRX flags hasNeutronHeatingAndDamage /
+# hasGammaHeating -- is written as 0 and reads back False.  Reproduction (plain Python) in the report.
+KNOWN_DEFECT_rwBool_drops_numpy_bool = True
+
+BOOLS = {"True": lambda: True, "False": lambda: False,
+         "numpy.bool_(True)": lambda: __import__("numpy").bool_(True),
+         "numpy.bool_(False)": lambda: __import__("numpy").bool_(False)}
+
+
+@harness("C09", bounds="a record holding int, bool, int written and read back, binary and ASCII encodings; the "
+                       "boolean is a symbolic choice among the boolean values Python and numpy have (True, False, "
+                       "numpy.bool_(True), numpy.bool_(False)); the integers are concrete in the binary encoding "
+                       "(struct.pack) and symbolic in the ASCII one", stubs=STUBS,
+         instances={"quick": [dict(binary=True), dict(binary=False)]})
+def bool_field_reads_back(ctx, binary):
+    which = ctx.choice("value", list(BOOLS))
+    a = ctx.int("a", -10 ** 6, 10 ** 6)
+    val = BOOLS[which]()
+    first = 41 if binary else a
+    st = SymStream(binary)
+    with (cccc.BinaryRecordWriter if binary else cccc.AsciiRecordWriter)(st) as w:
+        w.rwInt(first)
+        w.rwBool(val)
+        w.rwInt(-3)
+    rd = SymStream(binary)
+    rd.buf = st.buf
+    with (cccc.BinaryRecordReader if binary else cccc.AsciiRecordReader)(rd) as r:
+        ga = r.rwInt(None)
+        gb = r.rwBool(None)
+        gc = r.rwInt(None)
+    if ctx.canary:
+        ga = ga + ITE(AND(a == 12345, which == "False"), 1, 0)
+    ctx.check_eq("integer before the boolean", ga, first)
+    ctx.check("integer after the boolean", gc == -3)
+    ctx.check("a boolean is stored as one integer word", len(st.buf) == (20 if binary else 5 * cccc.IORecord._intLength + 1))
+    if not (KNOWN_DEFECT_rwBool_drops_numpy_bool and which.startswith("numpy") and bool(val)):
+        ctx.check("boolean reads back equal to what was written", isinstance(gb, bool) and gb == bool(val))
+    ctx.check("reader consumed the whole record", rd.remaining() == 0)
 
 
 @harness("C09", bounds="ASCII record holding one integer v, v symbolic over the full int32 range; widths read from "
